@@ -143,6 +143,30 @@ class Drv(object):
     def setstr(self, name, b):
         self.sess.s.set_variable(name, bytes(bytearray(b)))
 
+    VARNAME = {'i': 'V%', 's': 'V!', 'd': 'V#'}
+
+    def on_variable(self, tmpl, b):
+        """The operand with encoding b is put in a numeric VARIABLE (V% / V! / V#) and `tmpl % variable` is evaluated twice.
+        Returns (first outcome, note): note is None, or says that the second evaluation differs from the first or that the
+        variable no longer holds its bytes - a function of a value must not depend on, or change, the variable it is read from.
+        Returns (None, None) when the variable could not be set (the caller falls back to a temporary)."""
+        t = typ(b)
+        var = self.VARNAME[t]
+        self.setstr('A$', b)
+        if self.sess.ex('%s=%s(A$)' % (var, CVFN[t]))[0] != 'ok':
+            return None, None
+        before = self.evalv('%s(%s)' % (MKFN[t], var))
+        o1 = self.evalv(tmpl % var)
+        o2 = self.evalv(tmpl % var)
+        after = self.evalv('%s(%s)' % (MKFN[t], var))
+        key = lambda o: (o['k'], o['t'], o['b'], o['c'])
+        note = None
+        if key(o1) != key(o2):
+            note = 'second evaluation of %s differs: %r then %r' % (tmpl % var, key(o1), key(o2))
+        elif before['k'] == 'val' and key(before) != key(after):
+            note = 'the variable changed from %r to %r by evaluating %s' % (before['b'], after['b'], tmpl % var)
+        return o1, note
+
     def operand_text(self, var, b):
         """BASIC text denoting the value with encoding b: CVx(var$) with var$ set to the bytes."""
         self.setstr(var + '$', b)
